@@ -150,7 +150,7 @@ def r19_2(ctx):
 def r19_4(ctx):
     """What the watchdog counts as a failed keep-alive is what the command layer raises: InvalidCommandError is an
     EzspError (so a keep-alive the NCP rejects is counted, not propagated), EzspError derives from zigpy's API exception,
-    and the feed's handler names EzspError and the timeout."""
+    and the feed counts exactly that exception as a failed keep-alive (evaluated, whichever way the counting is written)."""
     import ast as _ast
 
     repo = ctx.repo
@@ -159,12 +159,18 @@ def r19_4(ctx):
     ctx.require("EzspError" in ice.base_names(), "InvalidCommandError<EzspError", f"InvalidCommandError bases: {ice.base_names()}")
     ee = repo.cls(exc, "EzspError")
     ctx.require(any(b in ("APIException", "ZigbeeException") for b in ee.base_names()), "EzspError<APIException", f"EzspError bases: {ee.base_names()}")
+    # ... and the feed treats that very exception (the subclass the command layer raises for a rejected command) as a failed
+    # keep-alive, however the counting is written (an except clause, a guard object's __exit__)
     f = repo.func(f"{APP}:ControllerApplication._watchdog_feed")
-    names = set()
-    for n in _ast.walk(f.node):
-        if isinstance(n, _ast.ExceptHandler) and n.type is not None:
-            names |= {_ast.unparse(t).split(".")[-1] for t in (n.type.elts if isinstance(n.type, _ast.Tuple) else [n.type])}
-    ctx.require({"EzspError", "TimeoutError"} <= names, "feed-handler", f"_watchdog_feed handles {sorted(names)}; it must count EzspError and TimeoutError", func=f)
+    cls = app_cls(ctx)
+    for ver in (4, 8):
+        px = PX(repo, models=[(k, Outcomes(RAISE("InvalidCommandError"))) for k in KEEPALIVE_CALLS] + [("self._get_free_buffers", Outcomes(OK(None)))],
+                inline=same_class())
+        px.hier.learn(ice)
+        for p in px.explore(f, lambda: (self_obj(cls, {"_ezsp": Obj(TypeRef("EZSP"), {"ezsp_version": ver}, tag="self._ezsp"), "_watchdog_failures": 0,
+                                                       "_watchdog_feed_counter": 0}), {})):
+            ctx.require(p.terminal == "return", f"feed-handler:v{ver}", f"v{ver}: a keep-alive the NCP rejects (InvalidCommandError, an EzspError) makes the first feed "
+                        f"{p.terminal} {p.value!r}; it is a failed keep-alive to be counted, not propagated", func=f, trace=p.trace(12))
 
 
 @rule("R19.5", ["C19"], "T-FUN", floor=6)
